@@ -37,7 +37,7 @@ Print Assumptions edns_version_roundtrip.
 
 (* ------------------------------------------------------------------------------------------ *)
 From DV Require Import Proofs.NameOrder Proofs.NameValid Proofs.NameCompress.
-From DV Require Import Proofs.MessageName Proofs.MessageRender Proofs.MessageRead Proofs.MessageRoundtrip Proofs.MessageRoundtrip2 Proofs.MessageRoundtrip3 Proofs.MessageUpdate Proofs.MessageRerender.
+From DV Require Import Proofs.MessageName Proofs.MessageRender Proofs.MessageRead Proofs.MessageRoundtrip Proofs.MessageRoundtrip2 Proofs.MessageRoundtrip3 Proofs.MessageUpdate Proofs.MessageRerender Proofs.MessageLimit.
 
 (* Rendering a well-formed ordinary message (any opcode but UPDATE; any id and flags; EDNS with any
    flags, extended rcode, version, payload and generic options; a TSIG record; with or without an
@@ -74,6 +74,16 @@ Theorem rerender_identical : forall o m max_size request_payload w m',
 Proof. exact rerender_identical_lemma. Qed.
 Print Assumptions rerender_identical.
 
+(* the same for a padded rendering of an unsigned message: the parsed message carries the padding option, and
+   rendering it WITHOUT padding gives the same octets.  (For a padded AND signed message this does not hold:
+   after padding the TSIG owner is written uncompressed, which the parsed message cannot know.) *)
+Theorem rerender_identical_padded : forall o pad m max_size request_payload w m',
+  org_ok o -> WfMsg o m -> mtsig m = None ->
+  to_wire m o max_size request_payload false pad = Ok w -> from_wire w o po0 = Ok m' ->
+  to_wire m' o max_size request_payload false 0 = Ok w.
+Proof. exact rerender_identical_padded_lemma. Qed.
+Print Assumptions rerender_identical_padded.
+
 (* Dynamic updates (opcode UPDATE; the reader builds an UpdateMessage, one record per record set):
    a zone section with one SOA-typed entry of a non-meta class, and in the prerequisite, update and
    additional sections record sets in the normal form the reader produces - the empty forms
@@ -109,8 +119,8 @@ Print Assumptions update_forms_rerender_identical.
 (* the header counts equal the records present (record sets count one per record, an empty set one;
    OPT and TSIG count in the additional section), and the reader, which reads exactly that many
    records and rejects trailing octets, accepts the message *)
-Theorem counts_exact : forall o m max_size request_payload w,
-  org_ok o -> WfMsg o m -> wf_tsig m -> to_wire m o max_size request_payload false 0 = Ok w ->
+Theorem counts_exact : forall o pad m max_size request_payload w,
+  org_ok o -> WfMsg o m -> wf_tsig m -> to_wire m o max_size request_payload false pad = Ok w ->
   exists body,
     w = hdr_bytes (mid m) (mflags m) (zlen (mq m)) (rr_count (man m)) (rr_count (mau m))
                   (rr_count (mad m) + opt_count (mopt m) + opt_count (mtsig m)) ++ body /\
